@@ -13,6 +13,7 @@ package vsched
 import (
 	"fmt"
 	"runtime"
+	"sort"
 	"sync"
 	"sync/atomic"
 )
@@ -347,9 +348,31 @@ func (x *Map) LoadAndDelete(k interface{}) (interface{}, bool) {
 	return x.m.LoadAndDelete(k)
 }
 func (x *Map) Delete(k interface{}) { Point("Map.Delete"); x.m.Delete(k) }
+
+// Range takes the key set at its schedule point and visits int keys in ascending order, skipping keys deleted
+// meanwhile: one of the orders sync.Map.Range allows, chosen so that runs are reproducible from the seed and
+// comparable with Model/NativeConc.v (Go's map order is random).
 func (x *Map) Range(f func(k, v interface{}) bool) {
 	Point("Map.Range")
-	x.m.Range(f)
+	var keys []interface{}
+	allInt := true
+	x.m.Range(func(k, v interface{}) bool {
+		keys = append(keys, k)
+		if _, ok := k.(int); !ok {
+			allInt = false
+		}
+		return true
+	})
+	if allInt {
+		sort.Slice(keys, func(i, j int) bool { return keys[i].(int) < keys[j].(int) })
+	}
+	for _, k := range keys {
+		if v, ok := x.m.Load(k); ok {
+			if !f(k, v) {
+				return
+			}
+		}
+	}
 }
 func (x *Map) Clear() { Point("Map.Clear"); x.m.Clear() }
 
